@@ -495,6 +495,19 @@ def single_poll_rule(ctx, prog):
            "restarted with the full timeout again)", worst == 1, {"max_poll_calls_on_a_path": worst}, nontrivial=True)
 
 
+def widened_products_rule(ctx, prog, rule):
+    """T9: time arithmetic is done in 64 bits: no product of two ints is computed in 32 bits and widened afterwards (a deadline of
+    a few dozen minutes, scaled to a finer unit, would wrap and land in the past)"""
+    from .. import tablebounds as TB
+    hits = []
+    for F in prog.funcs_all:
+        if not F.file.startswith(prog.root) or "/test/" in F.file or "/examples/" in F.file:
+            continue
+        TB.check_widened_products(prog, F, lambda n, ok, d, F=F: hits.append("%s:%d %s" % (F.name, n["l"][0], d["expression"])))
+    ctx.ob(rule, "library: products widened after the fact", "no int * int product is converted to a 64-bit value after having been computed "
+           "in 32 bits", not hits, {"sites": hits[:4]})
+
+
 def check(ctx):
     prog = ctx.prog("posix-mt")
     expiry_contract(ctx, prog)
@@ -503,3 +516,8 @@ def check(ctx):
     poll_rules(ctx, prog)
     wait_rules(ctx, prog)
     structure_rules(ctx, prog)
+    # "the OS poll returned 0" is what the rules above take for "the time is up": the helper between them and poll(2) must hand 0
+    # on only when poll(2) itself returned 0 - an error (EINTR included) stays an error (C09.V6)
+    from . import c09
+    c09.pipe_poll_rules(ctx, prog)
+    widened_products_rule(ctx, prog, "C08.T9")
